@@ -410,10 +410,10 @@ Definition chart_equiv_b (a b : chart) : bool :=
 (** C06.  aux = (the implementation's parse of the canonical rendering (LF, no BOM, canonical section
     order, no unknown sections), tags of the unknown sections added, expected (instrument, difficulty)
     keys, was a required section removed?). *)
-Definition C06_aux := (parse_out * list str * list (str * str) * bool * Z)%type.
+Definition C06_aux := (parse_out * list str * list (str * str) * bool * Z * str)%type.
 Definition pair_eqb2 (a b : str * str) : bool := str_eqb (fst a) (fst b) && str_eqb (snd a) (snd b).
 Definition C06_spec (aux : C06_aux) (o : parse_out) : bool :=
-  let '(base, unknown, keys, removed, n_events) := aux in
+  let '(base, unknown, keys, removed, n_events, song_name) := aux in
   if removed then match o with Err e => errkind_eqb e EValue | Ok _ => false end
   else
     match base, o with
@@ -422,6 +422,8 @@ Definition C06_spec (aux : C06_aux) (o : parse_out) : bool :=
            event and instrument sections has become an event (a note event per tick) of the part its section feeds *)
         match logs0 with [] => true | _ => false end
         && (Z.of_nat (length (all_timed ch0) + length (st_anchor (c_sync ch0))) =? n_events)
+        (* ... and [Song] has fed the metadata: the Name written there (before the Resolution line) is the chart's name *)
+        && match assoc (of_string "name"%string) (c_meta ch0) with Some (MVStr v) => str_eqb v song_name | _ => false end
         && chart_equiv_b ch ch0
         && perm_b log_eqb logs (logs0 ++ map LUnhandled unknown)
         && perm_b pair_eqb2 (track_keys (c_tracks ch)) keys
